@@ -505,12 +505,14 @@ class Ctx:
         self.obligation("coqchk -o PV.Props.%s (independent checker; axioms: %s)" % (self.pid, ", ".join(axioms) or "none"),
                         not extra_ax and not unsafe, extra_ax + unsafe)
 
-    def coq_failing(self, name, imports, defs, case_terms, checker, shard=400, timeout=900):
+    def coq_failing(self, name, imports, defs, case_terms, checker, shard=400, timeout=900, ty=None):
         """Evaluate `checker : case -> bool` on every case term inside Coq.
 
         Writes sharded files cases_<name>_<k>.v, runs coqc in parallel, returns the
         sorted list of indices of cases for which the checker returned false.
-        `imports`: Coq `Require Import` lines; `defs`: extra definitions text.
+        `imports`: Coq `Require Import` lines; `defs`: extra definitions text; `ty`: the Coq type of one
+        case (optional: `pv_cases : list ty`, so that a shard whose cases all hold `[]` / `None` in one
+        position still elaborates).
         Raises RuntimeError if Coq rejects a file (that is a harness/model bug or
         a broken model, reported by the caller as a failed correspondence).
         """
@@ -526,7 +528,7 @@ class Ctx:
             path = os.path.join(self.work, "cases_%s_%d.v" % (name, k // shard))
             with open(path, "w") as f:
                 f.write(hdr)
-                f.write("Definition pv_cases := [\n  " + ";\n  ".join(part) + "\n].\n")
+                f.write("Definition pv_cases%s := [\n  " % (" : list (%s)" % ty if ty else "") + ";\n  ".join(part) + "\n].\n")
                 f.write("Eval vm_compute in (pv_failing (%s) 0 pv_cases).\n" % checker)
             files.append((k, path))
         procs = []
